@@ -296,3 +296,140 @@ def tag_source(h, name):
                         return "terminal_bin"
                 return "other"
     return None
+
+
+# ---- hit path == miss path ---------------------------------------------------------------------------
+def sym(e, env):
+    """symbolic, line-free rendering of an expression with let-bound locals expanded"""
+    if not isinstance(e, dict):
+        return "?"
+    k = e.get("k")
+    if k == "path":
+        if e.get("res") == "local":
+            return env.get(e["n"], e["n"])
+        return (e.get("did") or e.get("n") or "?").split("::")[-1]
+    if k in ("ref", "use", "cast"):
+        return sym(e["e"], env)
+    if k == "un":
+        return sym(e["e"], env) if e["o"] == "*" else "%s%s" % (e["o"], sym(e["e"], env))
+    if k == "lit":
+        return e["v"]
+    if k == "bin":
+        return "(%s %s %s)" % (sym(e["l"], env), e["o"], sym(e["r"], env))
+    if k == "mcall":
+        if e.get("m") in ("oxidd_core::Edge::borrowed", "std::borrow::Borrow::borrow", "std::ops::Deref::deref") \
+                or e["name"] in ("borrowed", "into_edge"):
+            return sym(e["r"], env)
+        return "%s.%s(%s)" % (sym(e["r"], env), e["name"], ", ".join(sym(a, env) for a in e["a"]))
+    if k == "call":
+        f = e["f"]
+        fn = (f.get("n") or "?") if f.get("k") == "path" else "?"
+        args = [sym(a, env) for a in e["a"]]
+        if fn.endswith("EdgeDropGuard::<'a, M>::new") and len(args) == 2:
+            return args[1]
+        if f.get("res") == "ctor" and fn.split("::")[-1] in ("Ok", "Some") and len(args) == 1:
+            return args[0]
+        return "%s(%s)" % (fn.split("::")[-1], ", ".join(args))
+    if k == "match" and e.get("src", "").startswith("TryDesugar"):
+        inner = e["e"]
+        if inner.get("k") == "call" and inner.get("a"):
+            return sym(inner["a"][0], env)
+    if k == "if":
+        return "if(%s){%s}else{%s}" % (sym(e["c"], env), sym(e["t"], env), sym(e.get("e", {}), env))
+    if k == "block":
+        env2 = dict(env)
+        for s in e["s"]:
+            if s["k"] == "slet" and "e" in s and s["p"].get("k") == "bind":
+                env2[s["p"]["n"]] = sym(s["e"], env2)
+        return sym(e["e"], env2) if "e" in e else "()"
+    if k == "tup":
+        return "(%s)" % ", ".join(sym(a, env) for a in e["a"])
+    if k == "array":
+        return "[%s]" % ", ".join(sym(a, env) for a in e["a"])
+    if k == "field":
+        return "%s.%s" % (sym(e["e"], env), e["n"])
+    return "<%s>" % k
+
+
+def check_hit_equals_miss(ctx, F, rule="E-CACHE.hit"):
+    """the value returned on a cache hit is the same function of the cached value as the value returned on the
+    miss path is of the value being inserted"""
+    n = 0
+    for fid, h in sorted(F.hir.items()):
+        if not fid.startswith("oxidd_rules_"):
+            continue
+        # find `if let Some(x) = <..>.get*(..) { ...; return Ok(E) }`
+        hit = None
+        for node in H.walk(h["body"]):
+            if node.get("k") == "if" and node["c"].get("k") == "let":
+                init = node["c"]["e"]
+                if init.get("k") == "mcall" and (init.get("m") or "").startswith(CACHE + "get"):
+                    binds = [b["n"] for b in H.walk(node["c"]["p"]) if b.get("k") == "bind"]
+                    hit = (node, binds)
+        if hit is None:
+            continue
+        node, binds = hit
+        if len(binds) != 1:
+            continue
+        env = {binds[0]: "$c"}
+        then = node["t"]
+        hs = None
+        if then.get("k") == "block":
+            for s in then["s"]:
+                if s["k"] == "slet" and "e" in s and s["p"].get("k") == "bind":
+                    env[s["p"]["n"]] = sym(s["e"], env)
+                elif s["k"] in ("semi", "expr") and s["e"].get("k") == "ret" and "e" in s["e"]:
+                    hs = sym(s["e"]["e"], env)
+            if hs is None and "e" in then:
+                t = then["e"]
+                hs = sym(t["e"], env) if t.get("k") == "ret" and "e" in t else sym(t, env)
+        if hs is None:
+            continue
+        # the block containing the add call
+        add = None
+        for blk in H.walk(h["body"]):
+            if blk.get("k") != "block":
+                continue
+            for idx, st in enumerate(blk["s"]):
+                e = st.get("e")
+                if isinstance(e, dict) and e.get("k") == "mcall" and (e.get("m") or "").startswith(CACHE + "add"):
+                    add = (blk, idx, e)
+        if add is None:
+            continue
+        blk, idx, ecall = add
+        env2 = {}
+        # lets bound before the lookup stay symbolic on both paths
+        hit_idx = -1
+        for j, st in enumerate(blk["s"]):
+            if st.get("e") is node:
+                hit_idx = j
+        v = None
+        for j, st in enumerate(blk["s"]):
+            if j > hit_idx and st["k"] == "slet" and "e" in st and st["p"].get("k") == "bind":
+                env2[st["p"]["n"]] = sym(st["e"], env2)
+            if j == idx:
+                val = ecall["a"][3] if len(ecall["a"]) > 3 else None
+                if val is None:
+                    break
+                vs = sym(val, env2)
+                # add_extended: (&[h.borrowed()], &[])
+                m_ = vs
+                if vs.startswith("([") and "]" in vs:
+                    m_ = vs[2:vs.index("]")]
+                v = m_
+        if v is None or "e" not in blk:
+            continue
+        r = sym(blk["e"], env2)
+        n += 1
+        want = hs.replace("$c", v)
+        nice = F.nice(fid)
+        ctx.ob(rule, "%s:%s" % (rule, nice), want == r,
+               "%s (%s): on a cache hit the function returns `%s` of the cached value, but on the miss path it caches "
+               "`%s` and returns `%s`: a later hit yields a different value than the call that created the entry"
+               % (nice, F.where(fid), hs, _short(v), _short(r)) if want != r else
+               "%s: hit and miss paths return the same function of the cached value (%s)" % (nice, _short(hs)))
+    return n
+
+
+def _short(s, n=160):
+    return s if len(s) <= n else s[:n] + "..."
